@@ -59,16 +59,47 @@ async fn run_script(cluster: u16, script: Script) -> Vec<Value> {
     let mut running: BTreeMap<u8, (u16, ChitchatNode)> = BTreeMap::new();
     let mut out = vec![json!({"ev": "reset", "cluster": cluster})];
     for (step, id, slot) in script {
-        match step {
-            "up" => {
-                running.insert(id, (slot, start(cluster, id, slot, vec![seed.clone()], &transport).await));
-            },
-            _ => {
-                if let Some((_, node)) = running.remove(&id) {
-                    node.shutdown().await;
-                }
-            },
-        }
+        // wait_for_members (what DatacakeNode::wait_for_nodes is made of) is called on the observer BEFORE the step is taken and
+        // runs while it is taken: for a join it waits until the snapshot names every node that will then be running, for a
+        // departure until the node is gone; a third call waits 1.5 s for a node that never comes (WaitFor.tla).
+        let ids_at_call: Vec<u8> = members.borrow().keys().copied().collect();
+        let mut want: Vec<u8> = running.keys().copied().chain([1u8, id]).collect();
+        want.sort();
+        want.dedup();
+        let up = step == "up";
+        let t0 = Instant::now();
+        let wait_step = async {
+            let want = want.clone();
+            let r = observer
+                .wait_for_members(move |m| if up { want.iter().all(|i| m.contains_key(i)) } else { !m.contains_key(&id) }, Duration::from_secs(150))
+                .await;
+            (r.is_ok(), t0.elapsed(), members.borrow().keys().copied().collect::<Vec<u8>>())
+        };
+        let wait_never = async {
+            let r = observer.wait_for_members(|m| m.contains_key(&99) && m.contains_key(&1), Duration::from_millis(1500)).await;
+            (r.is_ok(), t0.elapsed(), members.borrow().keys().copied().collect::<Vec<u8>>())
+        };
+        let take_step = async {
+            // let the two calls get going first
+            tokio::time::sleep(Duration::from_millis(50)).await;
+            match step {
+                "up" => {
+                    running.insert(id, (slot, start(cluster, id, slot, vec![seed.clone()], &transport).await));
+                },
+                _ => {
+                    if let Some((_, node)) = running.remove(&id) {
+                        node.shutdown().await;
+                    }
+                },
+            }
+        };
+        let (w1, w2, ()) = tokio::join!(wait_step, wait_never, take_step);
+        out.push(json!({"ev": "wait", "cluster": cluster, "kind": if up { "all_present" } else { "absent" }, "want": if up { want.clone() } else { vec![id] },
+                        "timeout_ms": 150_000, "result": if w1.0 { "ok" } else { "timeout" }, "elapsed_ms": w1.1.as_millis() as u64,
+                        "snap_at_call": ids_at_call, "snap_at_return": w1.2}));
+        out.push(json!({"ev": "wait", "cluster": cluster, "kind": "all_present", "want": [1, 99],
+                        "timeout_ms": 1500, "result": if w2.0 { "ok" } else { "timeout" }, "elapsed_ms": w2.1.as_millis() as u64,
+                        "snap_at_call": ids_at_call, "snap_at_return": w2.2}));
         // what is really running now (the observer itself is part of its own snapshot)
         let mut truth: BTreeMap<u8, String> = running.iter().map(|(i, (s, _))| (*i, addr(cluster, *s).to_string())).collect();
         truth.insert(1, addr(cluster, 1).to_string());
@@ -99,16 +130,20 @@ pub async fn record() {
     let out = arg_or("--out", "source.ndjson");
     let mut f = std::io::BufWriter::new(std::fs::File::create(&out).expect("create trace"));
     let tasks: Vec<_> = scripts().into_iter().enumerate().map(|(i, s)| tokio::spawn(run_script(i as u16 + 1, s))).collect();
-    let (mut settled, mut max_wait) = (0u64, 0u64);
+    let (mut settled, mut max_wait, mut waits, mut waits_ok) = (0u64, 0u64, 0u64, 0u64);
     for t in tasks {
         for e in t.await.expect("script task") {
             if e["ev"] == "settled" {
                 settled += 1;
                 max_wait = max_wait.max(e["waited_ms"].as_u64().unwrap());
             }
+            if e["ev"] == "wait" {
+                waits += 1;
+                waits_ok += (e["result"] == "ok") as u64;
+            }
             writeln!(f, "{}", e).unwrap();
         }
     }
     f.flush().unwrap();
-    println!("{}", json!({"scripts": scripts().len(), "settled_points": settled, "longest_wait_ms": max_wait}));
+    println!("{}", json!({"scripts": scripts().len(), "settled_points": settled, "longest_wait_ms": max_wait, "wait_calls": waits, "wait_calls_answered_ok": waits_ok}));
 }
